@@ -50,15 +50,24 @@ fn wrong_value(t: &Ty, rng: &mut Rng, prog: &Program) -> Option<(Expr, String)> 
                 None
             }
         }
-        Ty::Bool => Some((Expr::Str("notbool".into()), "string where bool is expected".into())),
-        Ty::Str => Some((Expr::Bool(true), "bool where string is expected".into())),
-        Ty::Int(_) => {
-            if rng.bool() {
-                Some((Expr::Str("notint".into()), "string where an integer is expected".into()))
-            } else {
-                Some((Expr::Bool(false), "bool where an integer is expected".into()))
-            }
-        }
+        // besides values of another type: a prefix operator applied to an operand of the wrong kind, written directly in
+        // the checked position (`let m: int32 = !5`, `f(-true)`): the expected type must not make the operator fit
+        // (added after a seeded change that let `!` through wherever a numeric type is expected)
+        Ty::Bool => match rng.below(3) {
+            0 => Some((Expr::Unary(UnOp::Neg, Box::new(Expr::Bool(true))), "`-true` where bool is expected".into())),
+            1 => Some((Expr::Unary(UnOp::Not, Box::new(Expr::Int(IntTy::I32, 1, false))), "`!1` where bool is expected".into())),
+            _ => Some((Expr::Str("notbool".into()), "string where bool is expected".into())),
+        },
+        Ty::Str => match rng.below(3) {
+            0 => Some((Expr::Unary(UnOp::Not, Box::new(Expr::Str("s".into()))), "`!\"s\"` where string is expected".into())),
+            _ => Some((Expr::Bool(true), "bool where string is expected".into())),
+        },
+        Ty::Int(it) => match rng.below(4) {
+            0 => Some((Expr::Str("notint".into()), "string where an integer is expected".into())),
+            1 => Some((Expr::Unary(UnOp::Not, Box::new(Expr::Int(*it, 1, *it != IntTy::I32))), format!("`!1` at {} where an integer is expected", Ty::Int(*it).src()))),
+            2 => Some((Expr::Unary(UnOp::Neg, Box::new(Expr::Bool(true))), "`-true` where an integer is expected".into())),
+            _ => Some((Expr::Bool(false), "bool where an integer is expected".into())),
+        },
         Ty::Unit => Some((Expr::Str("notunit".into()), "string where unit is expected".into())),
         Ty::Struct(..) | Ty::Enum(..) | Ty::Vec(_) | Ty::Ref(_) | Ty::Array(..) => Some((Expr::Bool(true), format!("bool where {} is expected", t.src()))),
         Ty::Tuple(ts) if ts.iter().all(is_prim) => {
